@@ -263,7 +263,7 @@ def gen_guarded(rng, n):
         elif r < 0.40 and ever:
             i = rng.choice(ever) if rng.random() < 0.95 else anyslot()
             if rng.random() < 0.12:
-                st = rng.choice(FINALS)
+                st = rng.choice(FINALS + ["CONCURRENCY_CONTROLLED_FINAL"])
             else:
                 st = rng.choice(NONFINAL_WALK) if rng.random() < 0.85 else rng.choice(ST)
             if st in FINALS and i in live:
@@ -281,6 +281,8 @@ def gen_guarded(rng, n):
         elif r < 0.68:
             ops.append(("tick", rng.choice(TICKS)))
         elif r < 0.72:
+            if rng.random() < 0.5:
+                ops.append(("tick", rng.choice([D.PURGE_UNITS, D.PURGE_UNITS + 1])))
             ops.append(("autopurge",))
         elif r < 0.79:
             w = anyslot()
@@ -353,8 +355,9 @@ def gen_wild(rng, n):
     return ops
 
 
+# (a final status must be reachable inside a length-3 sequence: REGISTERED -> CONCURRENCY_CONTROLLED_FINAL is one step)
 EXH_CORE = [("reg", [0, 1]), ("set", 0, "PENDING", "r1"), ("set", 0, "RUNNING", "r1"), ("wait", 1, [0]),
-            ("tick", D.PENDING_UNITS), ("set", 0, "SUCCESS", "r1"), ("tick", D.PURGE_UNITS), ("autopurge",)]
+            ("tick", D.PENDING_UNITS), ("set", 0, "CONCURRENCY_CONTROLLED_FINAL", "zz"), ("tick", D.PURGE_UNITS), ("autopurge",)]
 EXH_WIDE = EXH_CORE + [("idx", 0), ("reg", [2]), ("set", 1, "PENDING", "r2"), ("set", 1, "KILLED", "r2"), ("incr", 0), ("hb", ["r1"], True),
                        ("tick", D.DEAD_UNITS + 1), ("route", 0), ("retrieve",), ("res", 0, 1),
                        ("wf", 0, 2), ("opurge",), ("q_filter", [0, 1], ["PENDING", "SUCCESS"]),
@@ -393,8 +396,22 @@ SCENARIOS = [
 ]
 
 
+def interleavings(prefix, events):
+    """all orders of a small event set after a common prefix: the wait graph x life cycle x purge corner is about ORDER
+    (a wait declared before / after the awaited invocation finished, before / after it was purged, ...)"""
+    return [list(prefix) + list(p) for p in itertools.permutations(events)]
+
+
+# P = 0 finishes, W = 1 waits for P, X = 2 waits for W, time passes, auto purge / direct release of the finished P
+WAIT_EVENTS = [("wait", 1, [0]), ("wait", 2, [1]), ("set", 0, "CONCURRENCY_CONTROLLED_FINAL", "zz"), ("tick", D.PURGE_UNITS),
+               ("autopurge",)]
+RELEASE_EVENTS = [("wait", 1, [0]), ("wait", 2, [1]), ("set", 0, "CONCURRENCY_CONTROLLED_FINAL", "zz"), ("release", 0)]
+
+
 def gen_cases(ctx: Ctx):
     cases = []
+    for sc in interleavings([("reg", [0, 1, 2])], WAIT_EVENTS) + interleavings([("reg", [0, 1, 2])], RELEASE_EVENTS):
+        cases.append(("interleaving", sc))
     for cls, w in WITNESSES.items():
         cases.append(("witness", w))
     for w in REGRESSIONS:
@@ -554,7 +571,7 @@ def main(ctx: Ctx) -> int:
     return ctx.finish(
         rule="one case = one operation sequence run from an empty application on MemX, SQLiteX, the index model and the relational model, "
              "every operation followed by the full read-out; evaluations = (operations + read-out queries) x 2 backends; "
-             "distinct_nontrivial = distinct sequences; exhaustive part: all sequences up to length 2 over the 22-operation alphabet and all of "
+             "distinct_nontrivial = distinct sequences; all orders of the wait-graph x final status x purge/release event sets; exhaustive part: all sequences up to length 2 over the 22-operation alphabet and all of "
              "length 3 over a 6-operation core (thorough: length 3 over the 8-operation core, length 4 over 7 of them); random part: guarded walks (inside the theorem's domain) up to 300 operations and wild walks")
 
 
